@@ -32,7 +32,7 @@ def dec_dump(enc):
     return out
 
 def norm(k, v):
-    return "\n".join(sorted(v.split("\n"))) if k in UNORDERED_KEYS else v
+    return v
 
 class C20(Prop):
     id = "C20"
@@ -245,9 +245,55 @@ class C20(Prop):
         return p not in ("E:syntax", "")
 
     # ------------------------------------------------------------------ known classes
+    # A failure is in a known class only if EVERY difference it consists of is explained by that
+    # class on the failing field itself (so that a co-occurring, unexplained difference stays fresh).
+    @staticmethod
+    def diffs(v, v2):
+        """field-level differences of two dumps: [(role, key, a, b)] (b None = field missing); None if the paragraph structure differs"""
+        if [r for r, _ in v] != [r for r, _ in v2]:
+            return None
+        out = []
+        for (role, a), (_, b) in zip(v, v2):
+            da, db = dict(a), dict(b)
+            for k in dict.fromkeys([k for k, _ in a] + [k for k, _ in b]):
+                if da.get(k) != db.get(k):
+                    out.append((role, k, da.get(k), db.get(k)))
+        return out
+
+    @staticmethod
+    def drop_hash_lines(a):
+        ls = a.split("\n")
+        return "\n".join([ls[0]] + [l for l in ls[1:] if not l.startswith("#")])
+
+    def explain(self, kind, role, k, a, b):
+        """the known class that accounts for field k printing as a but reading back (and printing) as b"""
+        if a is None:
+            return None
+        if kind in LOSSY_KINDS and b is not None and a == b + "\n":
+            return "c20-lossy-blank-last-line"
+        if kind == "copyright" and k in ("Files", "Files-Excluded") and b is not None and b != a and b == self.drop_hash_lines(a):
+            return "c20-files-hash-word"
+        if kind == "control" and k == "Vcs-Git" and gen_typed.pvcs_second_group(a) and b == gen_typed.pvcs_canon(a):
+            return "c20-vcs-second-group"
+        if kind == "buildinfo" and k == "Environment" and b != a and b == self.drop_hash_lines(a):
+            return "c20-env-hash-line"
+        if kind == "repositories" and k == "Signed-By" and a.startswith("\n#") and "\n" in a[1:]:
+            rest = "\n".join(a.split("\n")[2:])
+            if b == gen_typed.ext_canon("Signature", rest)[1]:
+                return "c20-signature-hash-block"
+        return None
+
     def known_class(self, stream, fields, impl, model, why):
         kind = fields[0]
         r = rec_fields(impl)
+        if "PANIC" in impl:
+            # debversion: comparing two versions with a digit run above i32::MAX panics (class of C12); here it is
+            # reached by `==` on apt Source / Package after a successful read
+            if kind in ("aptsource", "aptpackage") and r.get("p") == "OK" and r.get("ly", "ERR") != "ERR":
+                ver = first(dec_items(r["ly"]), "Version")
+                if ver is not None and any(int(d) > 2147483647 for d in re.findall(r"[0-9]+", ver)):
+                    return "c20-debversion-i32-digit-run"
+            return None
         if why.startswith("order:"):
             return "c20-hash-order"
         if r.get("p") != "OK":
@@ -256,19 +302,36 @@ class C20(Prop):
             v = dec_dump(r.get("v", ""))
         except Exception:
             return None
-        vals = [(role, k, x) for role, its in v for k, x in its]
         if why.startswith("stability"):
             if kind == "dep3" and r.get("v") == "P:" and r.get("r") == "E:noparas":
                 return "c20-dep3-empty-header"
-            if kind == "buildinfo" and any(k == "Environment" and "" in x.split("\n") and x != "" for _, k, x in vals):
-                return "c20-env-trailing-newline"
-            if kind == "copyright" and any(k in ("Files", "Files-Excluded") and any(l.startswith("#") for l in x.split("\n")[1:]) for _, k, x in vals):
-                return "c20-files-hash-word"
-            if kind in LOSSY_KINDS and any(x.endswith("\n") for _, _, x in vals):
-                return "c20-lossy-blank-last-line"
+            if r.get("r") != "OK":
+                # the printed text is rejected: only a one-line lossy value ending in LF does that - its
+                # empty line ends the paragraph, so the single-paragraph reader sees two
+                if kind in LOSSY_KINDS and r.get("r") == "E:syntax":
+                    its = v[0][1]
+                    if any(x.endswith("\n") and "\n" not in x[:-1] for _, x in its[:-1]):
+                        return "c20-lossy-blank-last-line"
+                return None
+            ds = self.diffs(v, dec_dump(r.get("v2", "")))
+            if not ds:
+                return None
+            classes = {self.explain(kind, role, k, a, b) for role, k, a, b in ds}
+            if len(classes) == 1 and None not in classes:
+                return classes.pop()
+            return None
         if why.startswith("field-wise (lossless view)") and kind in LOSSY_KINDS and r.get("ly", "ERR") != "ERR":
             ly = dec_items(r["ly"]); ll = dec_view(r.get("ll", "ERR"))
-            if ll and any(a == "\n" + first(ll[0], k) for k, a in ly if first(ll[0], k) is not None):
+            if not ll or len(ll) != 1:
+                return None
+            exp2 = self.expected(kind, unhex(fields[1]), [ll[0]], self.table_of(fields[2]))
+            if exp2 is None or exp2[0] != "OK":
+                return None
+            ds = self.diffs(v, [(role, [(k, x if x is not None else dict(v[0][1]).get(k)) for k, x in its]) for role, its in exp2[1]])
+            if not ds:
+                return None
+            # every field that differs is one whose first line is empty: lossy value = LF + lossless value
+            if all(first(ly, k) is not None and first(ll[0], k) is not None and first(ly, k) == "\n" + first(ll[0], k) for _, k, _, _ in ds):
                 return "c20-lossy-empty-first-line"
         return None
 
